@@ -78,6 +78,9 @@ var overridesV = []ovr{
 	{map[trustpolicy.ValidationType]trustpolicy.ValidationAction{"authenticTimestamp": "skip"}, false},
 	{map[trustpolicy.ValidationType]trustpolicy.ValidationAction{"bogus": "log"}, false},
 	{map[trustpolicy.ValidationType]trustpolicy.ValidationAction{"Expiry": "log"}, false},
+	{map[trustpolicy.ValidationType]trustpolicy.ValidationAction{"Integrity": "log"}, false},
+	{map[trustpolicy.ValidationType]trustpolicy.ValidationAction{"INTEGRITY": "skip", "expiry": "log"}, false},
+	{map[trustpolicy.ValidationType]trustpolicy.ValidationAction{"Revocation": "skip"}, false},
 	{map[trustpolicy.ValidationType]trustpolicy.ValidationAction{"expiry": "Enforce"}, false},
 	{map[trustpolicy.ValidationType]trustpolicy.ValidationAction{"revocation": ""}, false},
 	{map[trustpolicy.ValidationType]trustpolicy.ValidationAction{"revocation": "audit"}, false},
@@ -436,7 +439,17 @@ var operators = []operator{
 	}},
 	{"unknown-override-key-or-action", "", func(d *docT, rng *lib.Rand) bool {
 		if s := nonSkip(d, rng); s != nil {
-			s.Ov = overridesV[12+rng.Intn(5)]
+			s.Ov = ovWith(func(o ovr) bool {
+				if o.Valid {
+					return false
+				}
+				for k, v := range o.M {
+					if k == "integrity" || (v == "skip" && (k == "authenticity" || k == "expiry" || k == "authenticTimestamp")) {
+						return false // those belong to other operators
+					}
+				}
+				return true
+			}, rng)
 			return true
 		}
 		return false
@@ -614,8 +627,8 @@ func main() {
 	r.Rule = "grammar-valid base documents; each base x each of 25 rule-violating edit operators (x ordered pairs of operators); randomly assembled documents from the tagged vocabulary; each offered as OCI and as blob document; distinct by (JSON of the document, kind); non-trivial = every generated document (both accepted and rejected sides are needed)"
 	r.Assumptions = []string{"ground truth is computed on the tags of the vocabulary (no regular expression or DN parser is re-implemented); the tags were cross-checked by hand against the statement",
 		"identity strings outside the statement's vocabulary (no ':' separator, empty) are not used on the valid side"}
-	nBase := r.N(150, 600)
-	nRandom := r.N(120000, 1000000)
+	nBase := r.N(150, 1500)
+	nRandom := r.N(120000, 3000000)
 	rngB := r.Rand("base")
 	var bases []docT
 	for i := 0; i < nBase; i++ {
